@@ -86,8 +86,8 @@ def cells_job(j):
         ok, clause = verdicts[r["tid"]]
         m = meta[r["tid"]]
         distinct.add(hash((m["field"], m["token"])))
-        if not ok and len(viol) < 100:
-            viol.append(({"kind": "trace-rejected", "clause": clause, "field": m["field"], "token": m["token"]}, {"record": r, "meta": m}))
+        if not ok and len(viol) < 400:
+            genrun.add_viol(viol, ({"kind": "trace-rejected", "clause": clause, "field": m["field"], "token": m["token"]}, {"record": r, "meta": m}))
     samples = [meta[t] for t in list(meta)[40:42]]
     return {"job": j, "tlc": [genrun.tlc_summary("Trace_resp.cfg(cells)", tres)], "evaluations": len(records), "traces": len(records),
             "distinct": list(distinct), "samples": samples, "violations": viol, "extra": {"type_token_cells": len(records)}}
@@ -138,8 +138,8 @@ def job(j):
         ok, clause = verdicts[r["tid"]]
         if r["resp"]["hasErrors"]:
             distinct.add(hash(json.dumps(r["resp"]["data"], sort_keys=True) + meta[r["tid"]]["query"]))
-        if not ok and len(viol) < 50:
-            viol.append(({"kind": "trace-rejected", "clause": clause}, {"record": r, "meta": meta[r["tid"]]}))
+        if not ok and len(viol) < 400:
+            genrun.add_viol(viol, ({"kind": "trace-rejected", "clause": clause}, {"record": r, "meta": meta[r["tid"]]}))
     for r in records[:400]:
         if r["resp"]["hasErrors"] and len(samples) < 1 and len(r["nodes"]) >= 5:
             samples.append({"query": meta[r["tid"]]["query"], "response": meta[r["tid"]]["response"], "verdict": verdicts[r["tid"]]})
